@@ -242,7 +242,7 @@ def exact(chk, F):
         t = fn.blocks[bb]["term"]
         if t["k"] == "call" and "callee" in t:
             p = t["callee"]["path"]
-            return p.endswith(("Number::to_parts", "Context::canonicalize", "Show>::show", "Context::lookup", "Context::unknown_unit_err", "conformance_err")) or "fmt::" in p
+            return p.endswith(("Number::to_parts", "Number::to_parts_simple", "Number::prettify", "Context::canonicalize", "Show>::show", "Context::lookup", "Context::unknown_unit_err", "conformance_err")) or "fmt::" in p
         return False
     nreach, nprim, bad = k4.check_exact(chk, F, "exactness", roots, "unit-list parts must be exact", extra_stop=stop)
     chk.extra["exact_reach"] = {"functions": nreach, "float_primitives_seen": nprim}
